@@ -172,7 +172,7 @@ Qed.
 
 (* ---- per-rule preservation ---- *)
 Ltac start s :=
-  destruct s as [segs0 sid0 ty stk esc0 sinv0 sm sattr0 kw seekre0 cap0 cl copr0 seekcop0 ncmb0 seekanc0 dc];
+  destruct s as [segs0 sid0 ty stk esc0 sinv0 sm sattr0 kw seekre0 cap0 cl copr0 seekcop0 ncmb0 seekanc0 dc td0];
   unfold PI, estk in *;
   cbn [segs stack cap_re clevel stype skw smeth dcount esc seek_re seek_cop seek_anchor ncmb sid sinv sattr copr] in *.
 
@@ -230,10 +230,10 @@ Proof.
       destruct (nonempty sid0); okinv Ha; cbn; apply PIf_top.
       * apply segs_paired_app; [eapply PIf_segs; eauto|]. destruct ty as [[]|]; cbn in *; try discriminate; reflexivity.
       * eapply PIf_segs; eauto.
-    + okinv Ha. cbn. apply PIf_push; auto.
+    + okinv Ha. destruct (_ && negb (nonempty sid0)); cbn; apply PIf_push; auto.
   - destruct (Ascii.eqb c t) eqn:E; cbn in Ha; okinv Ha; cbn.
     + apply Ascii.eqb_eq in E. subst t. eapply PIf_pop; eauto.
-    + apply PIf_push; auto.
+    + destruct (_ && negb (nonempty sid0)); cbn; apply PIf_push; auto.
 Qed.
 
 Ltac use_flush EF fs :=
@@ -248,8 +248,8 @@ Proof.
   cbn in Hg. okinv Hg. rename H0 into Ec. apply Ascii.eqb_eq in Ec. subst c.
   assert (Hopen : forall sid1,
     in_br stk = false ->
-    (do s1 <- (if cl =? 0 then flush_expand (mkpst segs0 sid1 ty stk esc0 sinv0 sm sattr0 kw seekre0 false cl copr0 seekcop0 ncmb0 seekanc0 (List.length stk))
-               else Ok (mkpst segs0 sid1 ty stk esc0 sinv0 sm sattr0 kw seekre0 false cl copr0 seekcop0 ncmb0 seekanc0 (List.length stk)));
+    (do s1 <- (if cl =? 0 then flush_expand (mkpst segs0 sid1 ty stk esc0 sinv0 sm sattr0 kw seekre0 false cl copr0 seekcop0 ncmb0 seekanc0 (List.length stk) td0)
+               else Ok (mkpst segs0 sid1 ty stk esc0 sinv0 sm sattr0 kw seekre0 false cl copr0 seekcop0 ncmb0 seekanc0 (List.length stk) td0));
      let s2 := set_stype (Some TCollector) (push "("%char (set_clevel (S (clevel s1)) (set_seek_cop false s1))) in
      if clevel s2 =? 1 then cont s2 else fall s2) = Ok (s', b) ->
     PIf (segs s') (if cap_re s' then tl (stack s') else stack s') (clevel s') (stype s') (skw s') (smeth s')).
@@ -395,7 +395,7 @@ Proof.
     (if is_stype TIndex ty && negb (str_in ":"%char sid0)
      then match py_int sid0 with Some z => Ok (ty, AInt z) | None => Raise (YPE TypeMismatch) end
      else if is_stype TSearch ty && match sm with Some _ => true | None => false end
-     then match sm with Some m => Ok (ty, ASearch sinv0 m sattr0 (undemarcate sid0)) | None => Ok (ty, AStr sid0) end
+     then match sm with Some m => Ok (ty, ASearch sinv0 m sattr0 (if td0 then undemarcate sid0 else sid0)) | None => Ok (ty, AStr sid0) end
      else if is_stype TKeywordSearch ty && match kw with Some _ => true | None => false end
      then match kw with Some k => Ok (ty, AKeyword sinv0 k sid0) | None => Ok (ty, AStr sid0) end
      else Ok (ty, AStr sid0)) = Ok sg -> seg_paired sg = true).
@@ -535,7 +535,7 @@ Lemma first_rule_dcount s c :
   dcount s = List.length (stack s) -> dgood (first_rule (rules strip sepc) s c).
 Proof.
   intros Hd. destruct s as [segs0 sid0 stype0 stk esc0 sinv0 smeth0 sattr0 skw0 seekre0 cap0
-                            clevel0 copr0 seekcop0 ncmb0 seekanc0 dc].
+                            clevel0 copr0 seekcop0 ncmb0 seekanc0 dc td0].
   simpl in Hd. subst dc.
   destruct stk as [|t stk]; unfold rules, first_rule, dgood; crunch_d; cbn; try exact I; lia.
 Qed.
